@@ -115,7 +115,11 @@ def _norm(term):
   if k in ("vtuple", "type"):
     return (k, _norm(term[1]))
   if k == "literal":
-    return ("literal", type(term[1]).__name__, term[1])
+    # pytype never *infers* a Literal for a plain assignment (B's `v = a.x`): a
+    # Literal declared upstream is compared as its base type
+    return ("none",) if term[1] is None else ("cls", type(term[1]).__name__)
+  if k == "type" and False:
+    return term
   return term
 
 
@@ -163,14 +167,18 @@ def check_upstream(src, share):
       stubs[cname] = r.pyi
       for name, want in exp.items():
         ann = bstub.consts.get(name)
+        if ann is None and name in bstub.aliases:
+          # `n = T` in a stub declares n as (an alias of) the type T, i.e. a value of type[T]
+          got = ("type", adm.from_ast(bstub.aliases[name], bstub.typevars))
+          if _norm(got) != _norm(want):
+            bad.append("[%s] %s: upstream stub declares %s, downstream has the alias %s = %s" % (
+                cname, name, _show(want), name, pyast.unparse(bstub.aliases[name])))
+          continue
         if ann is None:
-          if name in bstub.funcs or name in bstub.classes or name in bstub.aliases:
-            got = None   # re-exported as def/class/alias: compared below only for classes
-            if name.startswith("k_"):
-              continue
-            bad.append("[%s] %s is not a typed constant in the downstream stub" % (cname, name))
-          else:
-            bad.append("[%s] %s is missing from the downstream stub" % (cname, name))
+          if name.startswith("k_") and name in bstub.classes:
+            continue
+          bad.append("[%s] %s is %s the downstream stub" % (
+              cname, name, "not a typed constant in" if name in bstub.funcs or name in bstub.classes else "missing from"))
           continue
         got = adm.from_ast(ann, bstub.typevars)
         if _norm(got) != _norm(want):
